@@ -11,6 +11,15 @@ transaction that changed storage, a black/white that had no effect or ignored th
 from checks.C20 import run_ccm
 
 
+def generate(ctx):
+    """(T) utils.CheckRouterStartBlock + GetChainHandler -> Poly/Generated/RouterStart.lean (theorem
+    router_tables_match_source ties the model's routerStartBlock / supportedRouters to the source)."""
+    return ctx.run_extract("keyshapes", ["routerstart"], out_lean="RouterStart.lean")
+
+
 def run(ctx):
+    ctx.cov["trusted_base"] += ["extract/keyshapes routerstart (translator for the router start block and handler table)"]
+    if generate(ctx) is None:
+        return
     run_ccm(ctx, "C21")
     ctx.judge_lean()
